@@ -182,13 +182,16 @@ func exportImportCheck(e *Env, st *Stats, modules []string, replay any) {
 		a, b := dumpStore(e, m), dumpStore(f, m)
 		diff := map[string][2]string{}
 		for k, v := range a {
-			if b[k] != v {
-				diff[k] = [2]string{v, b[k]}
+			// presence matters too: the entries of a key set (the power ranking) have empty values
+			if bv, ok := b[k]; !ok {
+				diff[k] = [2]string{v, "(absent)"}
+			} else if bv != v {
+				diff[k] = [2]string{v, bv}
 			}
 		}
 		for k, v := range b {
 			if _, ok := a[k]; !ok {
-				diff[k] = [2]string{"", v}
+				diff[k] = [2]string{"(absent)", v}
 			}
 		}
 		// an absent entry and an entry holding zero answer every query alike (slashed totals of value 0)
@@ -206,13 +209,13 @@ func exportImportCheck(e *Env, st *Stats, modules []string, replay any) {
 				continue
 			}
 			// a collections.Sequence that was never written reads as 0, InitGenesis writes the 0 explicitly
-			if (d[0] == "" && d[1] == "0000000000000000") || (d[1] == "" && d[0] == "0000000000000000") {
+			if (d[0] == "(absent)" && d[1] == "0000000000000000") || (d[1] == "(absent)" && d[0] == "0000000000000000") {
 				delete(diff, k)
 				st.Count("c18:unset-sequence-equals-zero-normalised")
 				continue
 			}
-			if m == "locking" && strings.EqualFold(storePrefixName(m, k), "slashed") && (d[0] == "" || d[1] == "") {
-				z := d[0] + d[1]
+			if m == "locking" && strings.EqualFold(storePrefixName(m, k), "slashed") && (d[0] == "(absent)" || d[1] == "(absent)") {
+				z := strings.ReplaceAll(d[0]+d[1], "(absent)", "")
 				if bz, _ := hex.DecodeString(z); string(bz) == "0" {
 					delete(diff, k)
 					st.Count("c18:zero-slashed-entry-normalised")
